@@ -109,6 +109,21 @@ def _install_worker_patches():
         core._PATCH_REGISTRATIONS[set.intersection] = _set_intersection
         core._PATCH_REGISTRATIONS[set.union] = _set_union
 
+    # CrossHair sometimes "prematurely realizes" a fresh symbolic argument (a bug-finding heuristic
+    # implemented as a parallel search node): for exhaustive confirmation it only adds iterations that
+    # enumerate concrete values.  Always take the symbolic branch.
+    if os.environ.get("VERIF_KEEP_PREMATURE") != "1":
+        from crosshair import statespace as _ss
+
+        _orig_fork_parallel = _ss.StateSpace.fork_parallel
+
+        def _fork_parallel(self, false_probability, desc=""):
+            if desc.startswith("premature realize"):
+                return False
+            return _orig_fork_parallel(self, false_probability, desc)
+
+        _ss.StateSpace.fork_parallel = _fork_parallel
+
     import z3
 
     _check = z3.Solver.check
